@@ -167,6 +167,13 @@ def gen_cases(ctx):
                 if n <= 3 or (a is not None and a < 0):
                     cases.append({'shape': [n], 'kinds': None if kind is None else [kind],
                                   'ops': [['get', [[a, b]]]], 'step1': True})
+                if n <= 4 and (a is not None or b is not None):
+                    # bounds that are integers without being Python ints (what np.searchsorted,
+                    # np.argmax, an element of an index array return), bare or in a 1-tuple
+                    cases.append({'shape': [n], 'kinds': None if kind is None else [kind],
+                                  'ops': [['get', [[a, b]]]],
+                                  'ityp': ITYPES[(n + len(cases)) % len(ITYPES)],
+                                  'tuple1': len(cases) % 2 == 0})
     ctx.count('exhaustive_1d', len(cases) - 7)
     # random n-d chains
     nrand = 500 if quick else 12000
@@ -197,9 +204,33 @@ def gen_cases(ctx):
             case['step1'] = True
         if rng.random() < 0.4:
             case['layout'] = rng.choice('FTSM')
+        if rng.random() < 0.3:
+            case['ityp'] = rng.choice(ITYPES)
+            case['imask'] = rng.randrange(1, 4)        # start only / stop only / both
+        if rng.random() < 0.3:
+            case['tuple1'] = True
         cases.append(case)
     ctx.count('random_nd_chains', nrand)
     return cases
+
+
+class Idx:
+    '''an integer-like object (has __index__), accepted by Python and NumPy as a slice bound'''
+
+    def __init__(self, val):
+        self.val = val
+
+    def __index__(self):
+        return self.val
+
+
+ITYPES = ['int64', 'int32', 'intp', 'int8', 'index']
+ICONV = {None: lambda a: a,
+         'int64': lambda a: None if a is None else np.int64(a),
+         'int32': lambda a: None if a is None else np.int32(a),
+         'intp': lambda a: None if a is None else np.intp(a),
+         'int8': lambda a: None if a is None else np.int8(a),
+         'index': lambda a: None if a is None else Idx(a)}
 
 
 def run_impl(ctx, case, triples):
@@ -213,8 +244,11 @@ def run_impl(ctx, case, triples):
                 out = d.squeeze()
             else:
                 # explicit unit step (d[a:b:1]) must behave like the omitted one
-                idx = tuple(slice(a, b, 1) if case.get('step1') else slice(a, b) for a, b in op[1])
-                out = d[idx if len(idx) != 1 else idx[0]]
+                conv = ICONV[case.get('ityp')]
+                mask = case.get('imask', 3)
+                bounds = [(conv(a) if mask & 1 else a, conv(b) if mask & 2 else b) for a, b in op[1]]
+                idx = tuple(slice(a, b, 1) if case.get('step1') else slice(a, b) for a, b in bounds)
+                out = d[idx if len(idx) != 1 or case.get('tuple1') else idx[0]]
         except Exception as exc:  # noqa
             out = exc
         step = {'ds': ds_json(d), 'op': op}
